@@ -666,7 +666,8 @@ def replay_compile_c_stmt(a):
     c = Compiler(ArchEnum.HEXAGON)
     ref = c.compile_c_stmt("{ RdV = 1; }")
     try:
-        c.compile_c_stmt("{ RdV = siV + RsV++; RdV = RsV + unknown_fn(RtV); }")
+        # fails while an immediate copy, registered operands AND a pending side effect (the call) are outstanding
+        c.compile_c_stmt("{ RdV = siV + RsV++; RdV = clz32(RsV) + unknown_fn(RtV); }")
         return None, "failing statement did not fail"
     except Exception as e:
         exc = type(e).__name__
